@@ -26,6 +26,9 @@ type Options struct {
 	TimeoutS int
 	NoLock   bool
 	Jobs     int
+	OblRe    string
+	UpdLock  bool
+	Fast     bool
 }
 
 func main() {
@@ -43,6 +46,9 @@ func main() {
 	fs.StringVar(&o.FuncRe, "func", "", "only functions matching this regexp")
 	fs.IntVar(&o.TimeoutS, "timeout", 0, "per-obligation solver timeout (s)")
 	fs.BoolVar(&o.NoLock, "nolock", false, "do not compare with baseline lock")
+	fs.BoolVar(&o.UpdLock, "update-lock", false, "maintenance: rewrite this property's entries of baseline/obligations.lock from the obligations discharged by this run")
+	fs.BoolVar(&o.Fast, "fast", false, "development aid: no retry phase and no search for candidate counterexamples (failures are reported after the first attempt)")
+	fs.StringVar(&o.OblRe, "obl", "", "development aid: only discharge obligations whose name matches this regexp (others are reported as skipped)")
 	fs.BoolVar(&explainMode, "explain", false, "for failing obligations print the model value of each conjunct of the goal")
 	fs.IntVar(&o.Jobs, "j", runtime.NumCPU(), "parallel solver jobs")
 	var pos []string
@@ -258,10 +264,19 @@ func runCheck(o *Options, e *Engine, prop string) *CheckRun {
 	all := append(append([]*Obligation{}, run.Obls...), run.Covers...)
 	kfList := loadKnownFindings(o.Verif)
 	var wg2 sync.WaitGroup
+	var oblRe *regexp.Regexp
+	if o.OblRe != "" {
+		oblRe = regexp.MustCompile(o.OblRe)
+	}
 	for i, ob := range all {
 		if ob.Trivial {
 			ob.Status = "discharged"
 			ob.Solver = "simplifier"
+			continue
+		}
+		if oblRe != nil && !oblRe.MatchString(ob.Name) {
+			ob.Status = "discharged"
+			ob.Solver = "skipped"
 			continue
 		}
 		wg2.Add(1)
@@ -300,9 +315,12 @@ func runCheck(o *Options, e *Engine, prop string) *CheckRun {
 				os.WriteFile(file, []byte(q), 0o644)
 				ans = raceTwo(file, 8)
 			} else if len(ob.cx.splits) > 0 {
-				file := filepath.Join(dir, fmt.Sprintf("q%05d.smt2", i))
-				os.WriteFile(file, []byte(q), 0o644)
-				ans = runOne("z3-new", file, 2)
+				// first the unsplit query (divisions are already expanded per power of two), then case by case
+				t0 := 8
+				if timeout < t0 {
+					t0 = timeout
+				}
+				ans, _ = solve(dir, fmt.Sprintf("q%05d", i), q, t0, false)
 			} else {
 				ans, _ = solve(dir, fmt.Sprintf("q%05d", i), q, timeout, false)
 			}
@@ -330,8 +348,22 @@ func runCheck(o *Options, e *Engine, prop string) *CheckRun {
 				// case split: every case must be unsat
 				total := ans.TimeS
 				allUnsat := true
-				for ci, hyp := range ob.cx.splits[0] {
-					ca, _ := solve(dir, fmt.Sprintf("q%05d_c%d", i, ci), ob.QueryCase(true, hyp), o.TimeoutS, false)
+				// the cases are independent: a few at a time
+				cases := ob.cx.splits[0]
+				cas := make([]SolverAnswer, len(cases))
+				var cwg sync.WaitGroup
+				csem := make(chan struct{}, 4)
+				for ci, hyp := range cases {
+					cwg.Add(1)
+					go func(ci int, hyp *Term) {
+						defer cwg.Done()
+						csem <- struct{}{}
+						defer func() { <-csem }()
+						cas[ci], _ = solve(dir, fmt.Sprintf("q%05d_c%d", i, ci), ob.QueryCase(true, hyp), o.TimeoutS, false)
+					}(ci, hyp)
+				}
+				cwg.Wait()
+				for _, ca := range cas {
 					total += ca.TimeS
 					if ca.Status != "unsat" {
 						allUnsat = false
@@ -375,7 +407,7 @@ func runCheck(o *Options, e *Engine, prop string) *CheckRun {
 				}
 			default:
 				ob.Status = ans.Status
-				if (ob.cx.bc != nil && ob.cx.bc.C.Replay != "") || explainMode {
+				if !o.Fast && ((ob.cx.bc != nil && ob.cx.bc.C.Replay != "") || explainMode) {
 					// look for a candidate counterexample without the quantified hypotheses
 					ob.cx.w.mu.Lock()
 					refs := ob.refutations()
@@ -411,7 +443,7 @@ func runCheck(o *Options, e *Engine, prop string) *CheckRun {
 	// second chance: obligations that only timed out are retried one after the other with a
 	// generous budget, so that machine load cannot turn a proof into an alarm
 	for i, ob := range all {
-		if ob.IsCover || ob.Trivial || ob.Status == "discharged" || ob.Status == "sat" || ob.Relaxed {
+		if o.Fast || ob.IsCover || ob.Trivial || ob.Status == "discharged" || ob.Status == "sat" || ob.Relaxed {
 			continue
 		}
 		if kfList.match("", ob) != nil {
@@ -631,6 +663,10 @@ func report(o *Options, e *Engine, run *CheckRun) int {
 	}
 	// lock: semantic obligations that must exist
 	missing := 0
+	if o.UpdLock && prop != "" && o.FuncRe == "" && o.OblRe == "" {
+		updateLock(o, run)
+		lock = loadLock(o.Verif)
+	}
 	if prop != "" && !o.NoLock && o.FuncRe == "" {
 		have := map[string]bool{}
 		for _, ob := range run.Obls {
@@ -656,7 +692,7 @@ func report(o *Options, e *Engine, run *CheckRun) int {
 	wall := time.Since(run.Start).Seconds()
 	fmt.Printf("property=%s tier=%s functions=%d obligations=%d discharged=%d (simplifier %d) bounded=%d/%d lemmas=%d failed=%d undecided=%d known-findings=%d wall=%.1fs\n",
 		prop, o.Tier, len(run.Results), nObl, nDis, nTriv, nBoundedDis, nBounded, len(run.Lemmas), len(failed)+lemmaFail-len(printedKF), len(run.Undecided)+missing, len(seen), wall)
-	if prop != "" && o.FuncRe == "" {
+	if prop != "" && o.FuncRe == "" && o.OblRe == "" && !o.Fast {
 		writeEvidence(o, e, run, nObl, nDis, nTriv, nBounded, nBoundedDis, byBackend, solverTime, violations, keys(seen), wall)
 	}
 	return exit
@@ -693,6 +729,47 @@ func loadLock(verif string) map[string][]string {
 	return out
 }
 
+func lockLines(p string, run *CheckRun) []string {
+	var lines []string
+	for _, ob := range run.Obls {
+		switch ob.Kind {
+		case "ensures", "invariant-entry", "invariant-preserved", "frame", "loop-step", "guarded-by", "split", "call-site":
+			if ob.Status == "discharged" {
+				lines = append(lines, p+" "+shortName(ob.Name))
+			}
+		}
+	}
+	for _, lr := range run.Lemmas {
+		if lr.Status == "unsat" {
+			lines = append(lines, p+" lemma "+lr.L.Name)
+		}
+	}
+	return lines
+}
+
+// updateLock replaces the lock entries of one property.
+func updateLock(o *Options, run *CheckRun) {
+	path := filepath.Join(o.Verif, "baseline", "obligations.lock")
+	data, _ := os.ReadFile(path)
+	var out []string
+	for _, ln := range strings.Split(strings.TrimRight(string(data), "\n"), "\n") {
+		if strings.HasPrefix(ln, run.Prop+" ") {
+			continue
+		}
+		if ln != "" {
+			out = append(out, ln)
+		}
+	}
+	if len(out) == 0 {
+		out = append(out, "# semantic obligations (ensures, invariants, frames, lemmas) discharged on the unchanged tree; one per line: <property> <obligation>")
+	}
+	out = append(out, lockLines(run.Prop, run)...)
+	head, rest := out[:1], out[1:]
+	sort.Strings(rest)
+	os.MkdirAll(filepath.Dir(path), 0o755)
+	os.WriteFile(path, []byte(strings.Join(append(head, rest...), "\n")+"\n"), 0o644)
+}
+
 func cmdLock(o *Options) int {
 	e, err := loadEngine(o.Repo)
 	if err != nil {
@@ -706,7 +783,7 @@ func cmdLock(o *Options) int {
 		run := runCheck(o, e, p)
 		for _, ob := range run.Obls {
 			switch ob.Kind {
-			case "ensures", "invariant-entry", "invariant-preserved", "frame", "loop-step", "guarded-by", "split":
+			case "ensures", "invariant-entry", "invariant-preserved", "frame", "loop-step", "guarded-by", "split", "call-site":
 				if ob.Status == "discharged" {
 					lines = append(lines, p+" "+shortName(ob.Name))
 				}
